@@ -4,6 +4,7 @@ import (
 	"fmt"
 	"os"
 	"strconv"
+	"strings"
 
 	"github.com/z7zmey/php-parser/verifmc/corpus"
 	"github.com/z7zmey/php-parser/verifmc/drive"
@@ -75,6 +76,34 @@ func init() {
 				fmt.Printf("  formatted: %q %v\n", out, pan)
 			}
 		}
+		os.Exit(0)
+	}
+}
+
+// check debug-parse <file>: parses every Go-quoted line of the file under 7.4, 7.2 and 5.6 (with the
+// coverage-instrumented build: which scanner blocks does a candidate input reach?). Not a check.
+func init() {
+	if len(os.Args) > 2 && os.Args[1] == "debug-parse" {
+		drive.SetBlockSize(4)
+		b, err := os.ReadFile(os.Args[2])
+		if err != nil {
+			fmt.Println(err)
+			os.Exit(2)
+		}
+		n := 0
+		for _, l := range strings.Split(string(b), "\n") {
+			s, err := strconv.Unquote(strings.TrimSpace(l))
+			if err != nil {
+				continue
+			}
+			for _, v := range []string{"7.4", "7.2", "5.6"} {
+				for cut := 0; cut <= len(s); cut++ {
+					drive.Parse([]byte(s[:cut]), parseVer(v), true)
+					n++
+				}
+			}
+		}
+		fmt.Println("parsed", n)
 		os.Exit(0)
 	}
 }
